@@ -4,11 +4,6 @@ package ggql
 
 //@ -- second sweep: functions dropped at generation time; shape preconditions derived from the signatures
 
-//@ func (*Root).addTypes
-//@   props C03
-//@   check panic {C03}
-//@   requires recv != nil
-
 //@ func (*Root).ParseString
 //@   props C03
 //@   check panic {C03}
